@@ -1,6 +1,6 @@
 import QuicModel.Driver
 import QuicModel.Codec.VarInt
-namespace Quic.Drivers
+namespace Quic.Drivers.VarInt
 open Quic
 
 /-- ops:  `enc <v>`  -> `ok <hex> <size>`   (v ≤ 2^62-1, else `err range`)
@@ -46,4 +46,6 @@ def varintRfcStep (t : List String) : String :=
 
 def varintRfc : Component := Component.stateless "varint-rfc" varintRfcStep
 
-end Quic.Drivers
+def components : List Component := [varint, varintRfc]
+
+end Quic.Drivers.VarInt
